@@ -24,33 +24,54 @@ UNREACHABLE = [
 ]
 
 
+ANCHORED = [
+    ('MIP.geom.transforms', ['to_cos', 'normalize_transform', 'get_transforms',
+                             'transform_vector', 'transform_point']),
+    ('MIP.geom.forcad', ['transform_frame']),
+    ('t4_geom_convert.Kernel.Transformation.Transformation',
+     ['get_mcnp_transforms', 'normalize_transform', 'normalize_matrix',
+      'adjust_matrix', 'is_matrix_rowwise', 'normalize_matrix3',
+      'normalize_matrix5', 'normalize_matrix6', 'transformation',
+      'transform_vector', 'compose_transform', 'to_numpy']),
+    ('t4_geom_convert.Kernel.Transformation.TransformationQuad',
+     ['transformation_quad']),
+    ('t4_geom_convert.Kernel.Surface.ConversionSurfaceMCNPToT4',
+     ['conversion_surface_params', 'convert_plane', 'convert_cylinder',
+      'convert_sphere', 'convert_special_quadric', 'sq_to_gq',
+      'convert_quadric', 'convert_torus', 'convert_cone',
+      'convert_mcnp_surface']),
+    ('t4_geom_convert.Kernel.Surface.SurfaceCollection',
+     ['SurfaceCollection.join', 'SurfaceCollection.__init__']),
+    ('t4_geom_convert.Kernel.VectUtils', ['rotation_from_vectors']),
+    ('t4_geom_convert.Kernel.Volume.ConstructVolumeT4',
+     ['extract_tr_surf_ids']),
+    ('t4_geom_convert.Kernel.Volume.CellConversion',
+     ['CellConversion.pot_transform', 'CellConversion.apply_trcl']),
+    ('t4_geom_convert.Kernel.FileHandlers.Parser.ParseMCNPCell',
+     ['ParseMCNPCell.parse_trcl_kw']),
+]
+
+
 def anchored_functions():
-    from MIP.geom import transforms as MT
-    from MIP.geom import forcad
-    from t4_geom_convert.Kernel.Transformation import Transformation as TR
-    from t4_geom_convert.Kernel.Transformation import TransformationQuad as TQ
-    from t4_geom_convert.Kernel.Surface import ConversionSurfaceMCNPToT4 as CS
-    from t4_geom_convert.Kernel.Surface.SurfaceCollection import \
-        SurfaceCollection
-    from t4_geom_convert.Kernel.Volume import ConstructVolumeT4 as CV
-    from t4_geom_convert.Kernel.Volume.CellConversion import CellConversion
-    from t4_geom_convert.Kernel.FileHandlers.Parser.ParseMCNPCell import \
-        ParseMCNPCell
-    from t4_geom_convert.Kernel import VectUtils
-    funcs = [MT.to_cos, MT.normalize_transform, MT.get_transforms,
-             MT.transform_vector, MT.transform_point, forcad.transform_frame,
-             TR.get_mcnp_transforms, TR.normalize_transform,
-             TR.normalize_matrix, TR.adjust_matrix, TR.is_matrix_rowwise,
-             TR.normalize_matrix3, TR.normalize_matrix5, TR.normalize_matrix6,
-             TR.transformation, TR.transform_vector, TR.compose_transform,
-             TR.to_numpy, TQ.transformation_quad,
-             CS.conversion_surface_params, CS.convert_plane,
-             CS.convert_cylinder, CS.convert_sphere,
-             CS.convert_special_quadric, CS.sq_to_gq, CS.convert_quadric,
-             CS.convert_torus, CS.convert_cone, CS.convert_mcnp_surface,
-             SurfaceCollection.join, SurfaceCollection.__init__,
-             VectUtils.rotation_from_vectors,
-             CV.extract_tr_surf_ids,
-             CellConversion.pot_transform, CellConversion.apply_trcl,
-             ParseMCNPCell.parse_trcl_kw]
-    return funcs
+    '''(functions found, names not present).  Tolerant: a function that a
+    refactoring renamed or removed is skipped and reported, never raised.'''
+    import importlib
+    funcs, absent = [], []
+    for modpath, names in ANCHORED:
+        try:
+            mod = importlib.import_module(modpath)
+        except Exception:       # pylint: disable=broad-except
+            absent.append(modpath)
+            continue
+        for name in names:
+            obj = mod
+            for part in name.split('.'):
+                obj = getattr(obj, part, None)
+                if obj is None:
+                    break
+            if obj is None or not hasattr(getattr(obj, '__func__', obj),
+                                          '__code__'):
+                absent.append(f'{modpath}.{name}')
+            else:
+                funcs.append(obj)
+    return funcs, absent
